@@ -417,6 +417,10 @@ func readHeader(in *io.Reader) (manifest []byte, mac []byte, err error) {
 		*in = io.MultiReader(bytes.NewReader(extraBytes), *in)
 	}
 
+	// The manifest and MAC are slices of the buffer that is given back to the pool when this function returns: return copies of them
+	manifest = append([]byte(nil), manifest...)
+	mac = append([]byte(nil), mac...)
+
 	return manifest, mac, nil
 }
 
